@@ -91,6 +91,9 @@ func Family(full bool) []FamDoc {
 			b = d.BytesXRefStream(false)
 		case "objstream":
 			b = d.BytesXRefStream(true)
+		case "indirect-lengths":
+			d.IndirectLengths = true
+			b = d.Bytes()
 		default:
 			b = d.Bytes()
 		}
@@ -115,9 +118,15 @@ func Family(full bool) []FamDoc {
 		}
 	}
 	// (2) containers x numbering x extras on a 3-page nested document
-	for _, container := range []string{"classic", "xrefstream", "objstream"} {
+	for _, container := range []string{"classic", "xrefstream", "objstream", "indirect-lengths"} {
 		for _, numbering := range []string{"dense", "gaps", "dangling-free-ref", "dangling-free-ref-gen1"} {
-			for _, extra := range []string{"none", "attachment", "outline", "filters", "no-info", "hazard-names"} {
+			for _, extra := range []string{"none", "attachment", "outline", "filters", "no-info", "hazard-names", "shared-indirect-attrs"} {
+				if container == "indirect-lengths" && !(extra == "none" || extra == "filters") {
+					continue
+				}
+				if !full && container == "indirect-lengths" && numbering != "dense" {
+					continue
+				}
 				if !full && !(extra == "none" || (container == "classic" && numbering == "dense") || (extra == "hazard-names" && numbering == "dense") || (container == "objstream" && numbering == "gaps" && extra == "filters")) {
 					continue
 				}
@@ -181,6 +190,53 @@ func Family(full bool) []FamDoc {
 						if o.isStrm && strings.Contains(string(o.stream), " cm Q") {
 							// the content uses the fonts, so that optimisation keeps them
 							o.stream = append(o.stream, []byte("BT /Lime#c2#a0Green 9 Tf 10 10 Td (x) Tj /Spot#e3#80#80One 9 Tf (y) Tj /A#23B#28 9 Tf (z) Tj ET\n")...)
+						}
+					}
+				case "shared-indirect-attrs":
+					// page attributes held in indirect objects that several pages share: the pages with an explicit
+					// /MediaBox all point at ONE array object per distinct box, and every page's /Resources is one
+					// shared dictionary object. An operation that edits such an object in place for one page
+					// changes its siblings.
+					boxObj := map[string]int{}
+					resObj := 0
+					pi := 0
+					for _, nr := range sortedKeys(d.objs) {
+						o := d.objs[nr]
+						if !strings.Contains(o.body, "/Type/Page/") {
+							continue
+						}
+						// pages are created in page order: the pi-th page dictionary is page pi+1. A page without a box
+						// of its own gets an explicit one equal to what it inherits, through the shared object.
+						box := media[pi]
+						pi++
+						if i := strings.Index(o.body, "/MediaBox["); i >= 0 {
+							j := i + strings.Index(o.body[i:], "]") + 1
+							o.body = o.body[:i] + o.body[j:]
+						}
+						if boxObj[box] == 0 {
+							boxObj[box] = d.Add(box)
+						}
+						o.body = strings.TrimSuffix(o.body, ">>") + "/MediaBox " + Ref(boxObj[box]) + ">>"
+						if i := strings.Index(o.body, "/Resources<<"); i >= 0 {
+							// balanced end of the dictionary
+							depth, j := 0, i+len("/Resources")
+							for k := j; k < len(o.body)-1; k++ {
+								if o.body[k:k+2] == "<<" {
+									depth++
+									k++
+								} else if o.body[k:k+2] == ">>" {
+									depth--
+									k++
+									if depth == 0 {
+										j = k + 1
+										break
+									}
+								}
+							}
+							if resObj == 0 {
+								resObj = d.Add(o.body[i+len("/Resources") : j])
+							}
+							o.body = o.body[:i] + "/Resources " + Ref(resObj) + o.body[j:]
 						}
 					}
 				case "no-info":
@@ -312,6 +368,8 @@ func CryptoDoc(kind, marker string, container string) []byte {
 		return d.BytesXRefStream(false)
 	case "objstream":
 		return d.BytesXRefStream(true)
+	case "indirect-lengths":
+		d.IndirectLengths = true
 	}
 	return d.Bytes()
 }
